@@ -11,6 +11,20 @@ PROPS = {
             "trusted_base": [E_MODEL, PY_SEM, STUBS, "z3 4.x/5.1 and cvc5 soundness"],
             "assumptions": ["Time +/- Quantity exact (model E); real Time rounding re-checked by the bounded layer at 1e-10 s"],
             "bounded_bounds": "N in {0,1,2,3,5,8,13}, sample dims 1..3, slice bounds in [-9,9], steps {1,2,3,7}"},
+    "C02": {"level": "proof", "modules": ["contracts.core"],
+            "technique": "contract-based deductive verification (AST->z3/cvc5 obligations against spec functions) + bounded differential replay",
+            "level_text": "channel_freqs/min_freq/max_freq/bandwidth/_freq_slice/__getitem__/Stokes access are verified against the band model of the statement for every channel count, alignment, centre, bandwidth and slice (nonlinear real arithmetic, all inputs symbolic); float rounding of labels only in the bounded layer",
+            "level_note": "trusted: pyvc's encoding of Python, stubs for slice.indices/np.arange/np.take/Quantity algebra (model E), solver soundness",
+            "trusted_base": [E_MODEL, PY_SEM, STUBS, "z3/cvc5 soundness"],
+            "assumptions": ["frequencies are exact reals (model E); 8-ulp label comparison on real doubles in the bounded layer"],
+            "bounded_bounds": "nchan 1..3 (x extra dims), cf in {0, 4e8, 1.4e9, 123456789}, bw over decades, slice bounds in [-9,9]"},
+    "C16": {"level": "proof", "modules": ["contracts.core"],
+            "technique": "contract-based deductive verification (AST->z3/cvc5 obligations against spec functions) + bounded differential replay",
+            "level_text": "the six constructors (run through the real __init__ chain and setters), like() for every (target, source) class pair, and every slicing path are verified against the class contract of the statement: each violated clause raises ValueError, otherwise the object carries exactly the prescribed attributes (baseband chan_bw = sample_rate, odd channel count -> 'center'); pickling is bounded only",
+            "level_note": "trusted: pyvc's encoding of Python incl. inspect.signature answered from the AST, stubs for Quantity/Time/astype(casting='safe' answered by the installed NumPy), solver soundness",
+            "trusted_base": [E_MODEL, PY_SEM, STUBS, "z3/cvc5 soundness"],
+            "assumptions": ["Time(x, format='isot', precision=9) accepts exactly Time instances among the modelled argument kinds"],
+            "bounded_bounds": "dims 0..13, all listed invalid-argument kinds, dtypes bool/int64/float32/float64/complex64/complex128"},
 }
 
 NOT_APPLICABLE = {}
